@@ -99,7 +99,7 @@ def harness_bin(name, variant="default", extra_src=(), libs=("-lcrypto",), cflag
     b = build_repo.get_build(variant)
     srcs = [os.path.join(HARNESS, name + ".c")] + [os.path.join(HARNESS, s) for s in extra_src]
     h = hashlib.sha256()
-    for s in srcs + [os.path.join(HARNESS, x) for x in ("common.h", "tramp.h", "guard.h", "sens.h")]:
+    for s in srcs + [os.path.join(HARNESS, x) for x in ("common.h", "tramp.h", "guard.h", "sens.h")]:   # headers are part of the key
         if os.path.exists(s):
             h.update(open(s, "rb").read())
     h.update(" ".join(cflags).encode())
